@@ -317,6 +317,8 @@ class ReaderWalk(object):
         self.text = set()
         self.handlers = {}   # tag -> set(method)
         self.seen = set()
+        self.returns = {}    # invocation key -> what the method returned (Elem / ElemList / UNK)
+        self.ret_stack = []
         self.raw = {}
 
     # recording
@@ -417,8 +419,11 @@ class ReaderWalk(object):
                 if isinstance(g.target, ast.Name):
                     e2[g.target.id] = self.element_of(it)
                 for c in g.ifs:
-                    self.refine_test(c, e2)
-            self.ev(n.elt, e2)
+                    e2, _f = self.refine_test(c, e2)
+            v = self.ev(n.elt, e2)
+            # `[child for child in node if child.tag in names]`: a list of (those) child elements
+            if isinstance(n.elt, ast.Name) and isinstance(v, Elem):
+                return ElemList(v)
             return UNK
         for c in ast.iter_child_nodes(n):
             if isinstance(c, ast.expr):
@@ -463,6 +468,8 @@ class ReaderWalk(object):
                 if f.id == 'enumerate':
                     return ('enumerate', v)
                 return v
+            if f.id == 'zip' and args:
+                return ('zip', [self.ev(a, env) for a in args])
             if isinstance(env.get(f.id), DispatchOn):
                 d = env[f.id]
                 target = self.ev(args[0], env) if args else UNK
@@ -490,8 +497,7 @@ class ReaderWalk(object):
                 if f.attr in self.methods:
                     vals = [self.ev(a, env) for a in args]
                     kws = {kw.arg: self.ev(kw.value, env) for kw in c.keywords}
-                    self.invoke(f.attr, vals, kws)
-                    return UNK
+                    return self.invoke(f.attr, vals, kws)
             if isinstance(base, Elem):
                 if f.attr in ('find', 'findall') and args:
                     k = self.ev(args[0], env)
@@ -539,9 +545,19 @@ class ReaderWalk(object):
                 for t in v.tags:
                     self.handlers.setdefault(t, set()).add(name)
         if key in self.seen:
-            return
+            return self.returns.get(key, UNK)
         self.seen.add(key)
+        self.ret_stack.append([])
         self.block(fn.body, env)
+        # what the method returns, when that is an element or a list of elements (a helper selecting children)
+        rets = [r for r in self.ret_stack.pop() if isinstance(r, (Elem, ElemList))]
+        out = UNK
+        if rets and all(isinstance(r, ElemList) for r in rets):
+            out = ElemList(Elem(frozenset().union(*[r.elem.tags for r in rets]), rets[0].elem.parent))
+        elif rets and all(isinstance(r, Elem) for r in rets):
+            out = Elem(frozenset().union(*[r.tags for r in rets]), rets[0].parent)
+        self.returns[key] = out
+        return out
 
     def merge(self, envs):
         out = {}
@@ -584,7 +600,9 @@ class ReaderWalk(object):
         for st in stmts:
             if isinstance(st, (ast.Return, ast.Raise)):
                 if isinstance(st, ast.Return):
-                    self.ev(st.value, env)
+                    v = self.ev(st.value, env)
+                    if self.ret_stack:
+                        self.ret_stack[-1].append(v)
                 return env
             self.stmt(st, env)
         return env
@@ -622,6 +640,9 @@ class ReaderWalk(object):
             it = self.ev(st.iter, env)
             if isinstance(it, tuple) and it and it[0] == 'enumerate':
                 self.assign(st.target, ('enumerate', self.element_of(it[1])), env)
+            elif isinstance(it, tuple) and it and it[0] == 'zip' and isinstance(st.target, (ast.Tuple, ast.List)):
+                for t, v in zip(st.target.elts, it[1]):
+                    self.assign(t, self.element_of(v), env)
             else:
                 self.assign(st.target, self.element_of(it), env)
             self.block(st.body, env)
